@@ -117,6 +117,10 @@ type Recorder struct {
 	// held: the State values handed to the callbacks, kept as a step-back debugger keeps them, with a checksum of
 	// what their stacks held at that moment; CheckHeld looks at them again after the run
 	held []heldState
+	// the else stack (one entry per open conditional after Genesis: has its OP_ELSE been seen) as the snapshot
+	// before the instruction showed it, and the instruction
+	elseAtBO [][]byte
+	opAtBO   byte
 }
 
 type heldState struct {
@@ -188,7 +192,38 @@ func (r *Recorder) ev(n string, s *interpreter.State) {
 			r.flag(fmt.Sprintf("%s: State is at %d:%d but script %d has %d opcodes in the snapshot", n, s.ScriptIdx, s.OpcodeIdx, s.ScriptIdx, scriptLen(s)))
 		}
 		switch n {
+		case "AO":
+			// consecutive snapshots are consistent with the instruction between them, the else stack included:
+			// OP_IF / OP_NOTIF open an entry (false), OP_ELSE marks the innermost one, OP_ENDIF closes it, bottom first
+			// like every other stack of a snapshot; before Genesis there is none
+			if r.inOp {
+				want := r.elseAtBO
+				if s.Genesis.AfterGenesis {
+					switch r.opAtBO {
+					case 0x63, 0x64:
+						want = append(cp(want), []byte{})
+					case 0x67:
+						if len(want) > 0 {
+							want = append(cp(want[:len(want)-1]), []byte{1})
+						}
+					case 0x68:
+						if len(want) > 0 {
+							want = cp(want[:len(want)-1])
+						}
+					}
+				}
+				same := len(want) == len(s.ElseStack)
+				for i := 0; same && i < len(want); i++ {
+					same = bytes.Equal(want[i], s.ElseStack[i])
+				}
+				if !same {
+					r.flag(fmt.Sprintf("AO: else stack %x before opcode 0x%02x, %x after it; the instruction makes it %x", r.elseAtBO, r.opAtBO, s.ElseStack, want))
+				}
+			}
+		}
+		switch n {
 		case "BO":
+			r.elseAtBO, r.opAtBO = cp(s.ElseStack), s.Opcode().Value()
 			r.inOp, r.opS, r.opIdx = true, s.ScriptIdx, s.OpcodeIdx
 		case "AO", "AS", "BC", "AE":
 			r.inOp = false
@@ -240,12 +275,13 @@ func (r *Recorder) AfterStep(s *interpreter.State) {
 	r.Snaps = append(r.Snaps, Snapshot{cp(s.DataStack), cp(s.AltStack)})
 	r.ev("AS", s)
 }
-func (r *Recorder) BeforeExecuteOpcode(s *interpreter.State)       { r.ev("BO", s) }
-func (r *Recorder) AfterExecuteOpcode(s *interpreter.State)        { r.ev("AO", s) }
-func (r *Recorder) BeforeScriptChange(s *interpreter.State)        { r.ev("BC", s) }
-func (r *Recorder) AfterScriptChange(s *interpreter.State)         { r.ev("AC", s) }
-func (r *Recorder) AfterSuccess(s *interpreter.State)              { r.ev("OK", s) }
-func (r *Recorder) AfterError(s *interpreter.State, _ error)       { r.ev("ER", s) }
+func (r *Recorder) BeforeExecuteOpcode(s *interpreter.State) { r.ev("BO", s) }
+func (r *Recorder) AfterExecuteOpcode(s *interpreter.State)  { r.ev("AO", s) }
+func (r *Recorder) BeforeScriptChange(s *interpreter.State)  { r.ev("BC", s) }
+func (r *Recorder) AfterScriptChange(s *interpreter.State)   { r.ev("AC", s) }
+func (r *Recorder) AfterSuccess(s *interpreter.State)        { r.ev("OK", s) }
+func (r *Recorder) AfterError(s *interpreter.State, _ error) { r.ev("ER", s) }
+
 // scribbleData: the byte slices handed to the stack callbacks are stack data handed to a debugger too
 func (r *Recorder) scribbleData(bb []byte) {
 	if r.Scribble {
@@ -254,7 +290,10 @@ func (r *Recorder) scribbleData(bb []byte) {
 		}
 	}
 }
-func (r *Recorder) BeforeStackPush(s *interpreter.State, bb []byte) { r.ev("bp", s); r.scribbleData(bb) }
+func (r *Recorder) BeforeStackPush(s *interpreter.State, bb []byte) {
+	r.ev("bp", s)
+	r.scribbleData(bb)
+}
 func (r *Recorder) AfterStackPush(s *interpreter.State, bb []byte) {
 	if s != nil {
 		top := func(st [][]byte) bool { return len(st) > 0 && bytes.Equal(st[len(st)-1], bb) }
@@ -265,7 +304,7 @@ func (r *Recorder) AfterStackPush(s *interpreter.State, bb []byte) {
 	r.ev("ap", s)
 	r.scribbleData(bb)
 }
-func (r *Recorder) BeforeStackPop(s *interpreter.State)          { r.ev("bq", s) }
+func (r *Recorder) BeforeStackPop(s *interpreter.State)           { r.ev("bq", s) }
 func (r *Recorder) AfterStackPop(s *interpreter.State, bb []byte) { r.ev("aq", s); r.scribbleData(bb) }
 
 func u32(n int) []byte {
@@ -294,14 +333,14 @@ func TraceHash(snaps []Snapshot) string {
 
 // Result of running a program against the implementation.
 type Result struct {
-	TraceBytes int // size of the canonical serialisation of all snapshots (cost of the model-side hash)
-	Obs    string // ok | err | panic
-	Err    string
-	Steps  int
-	Hash   string
-	Snaps  []Snapshot
-	Trace  []string
-	Incons string
+	TraceBytes int    // size of the canonical serialisation of all snapshots (cost of the model-side hash)
+	Obs        string // ok | err | panic
+	Err        string
+	Steps      int
+	Hash       string
+	Snaps      []Snapshot
+	Trace      []string
+	Incons     string
 }
 
 // Built holds the caller-owned objects handed to the engine (C08 compares them before/after).
